@@ -64,6 +64,17 @@ var c05Params = []string{
 	"|influxDBOut().database('db').retentionPolicy('rp').buffer({i})", "|influxDBOut().database('db').retentionPolicy('rp').flushInterval({d})",
 	"|eval(lambda: \"a\" + 1).as('r').keep('nope')", "|groupBy('host')|window().period({d}).every({d})", "|window().period(2s).every(2s)|mean('a')|window().periodCount({i})",
 	"|stateCount(lambda: \"v\" > 5)|window().everyCount({i}).periodCount(2)", "|changeDetect('a')|sample({i})",
+	// (round 3, second batch) predicates that are not boolean, empty names, degenerate time handling
+	"|where(lambda: 1)", "|where(lambda: \"s\")", "|stateCount(lambda: \"a\")", "|stateDuration(lambda: \"f\").unit({d})", "|alert().crit(lambda: \"a\").topic('t5')", "|alert().crit(lambda: \"v\" > 5).id('').topic('t5')",
+	"|alert().crit(lambda: \"v\" > 5).flapping({f}, {f}).history({i}).topic('t5')", "|alert().crit(lambda: \"v\" > 5).idField('').levelField('').durationField('').topic('t5')",
+	"|eval(lambda: \"a\" / {i}).as('r')", "|eval(lambda: \"f\" / {f}).as('r')|where(lambda: \"r\" > 0)", "|eval(lambda: {d} / \"a\").as('r')", "|eval(lambda: pow(\"f\", {f})).as('r')|derivative('r').unit({d})",
+	"|derivative('a').as('')", "|flatten().on()", "|flatten().on('host').delimiter('')", "|changeDetect()", "|default().field('', 1).tag('', 'x')", "|delete().field('').tag('')",
+	"|shift({d})|window().period(2s).every(2s)", "|window().period(2s).every(2s)|shift({d})|mean('a')", "|groupBy('host')|window().period(2s).every(2s).fillPeriod()|count('a')|shift({d})",
+	"|window().period(2s).every(2s)|percentile('s', {f})", "|window().period(2s).every(2s)|mean('s')", "|window().period(2s).every(2s)|sum('nope')|eval(lambda: \"sum\" / 0).as('r')",
+	"|window().period(2s).every(2s)|distinct('f')|cumulativeSum('distinct')", "|window().period(2s).every(2s)|difference('s')", "|window().period(2s).every(2s)|stddev('a')|derivative('stddev').unit({d})",
+	"|httpOut('')", "|log().level('nonsense')", "|kapacitorLoopback().database('').retentionPolicy('')", "|influxDBOut().database('').retentionPolicy('').precision('x')",
+	"|union()", "|window().period(2s).every(2s)|join().as()", "|combine(lambda: TRUE).as('x')", "|combine(lambda: TRUE, lambda: TRUE).as('x', 'y').delimiter('')",
+	"|barrier().idle({d}).period({d})", "|barrier().idle(1s).delete(TRUE)|window().periodCount({i}).everyCount(1)",
 }
 
 var c05Lambdas = []string{
@@ -658,7 +669,7 @@ func init() {
 	Register(&Prop{
 		ID:  "C05",
 		Run: runC05,
-		Rule: "case = one of five modes. json: the pipeline of a corpus script serialised to JSON, one seeded textual mutation (node type changed or unknown, value of another JSON kind, truncation, dropped key, node ids, edges), offered to Pipeline.Unmarshal; vars: a task definition with one of 30 well- and ill-formed vars documents POSTed to the real task_store handler, then the same script as a template (created, read back with its vars rendered, instantiated with the document, updated); define: a corpus script (6 scripts covering most node kinds) with 1-3 seeded byte-level mutations (truncate, delete, duplicate, rotate, multi-byte rune, comment or comment continuation lines after '/', stray tokens, property without parentheses, random byte, dropped parentheses, 4-7 extra arguments) offered to ast.Parse, tick.Format, TaskMaster.NewTask and NewTemplate inside a world; runtime: (a third of these cases) one of 37 node chains whose count/size/duration/percentile properties are filled with boundary values (0, -1, 1, +-2^63, 0s, -1s, 1ns, the longest duration, 0.0, 100.5, 1.8e308) and which, if the node API accepts them, must process eight points without a node failing; or a running task with one of 21 lambdas (three with two dynamic operands, fed a point in which both change type) in where/alert/stateCount/stateDuration/from/eval/derivative fed good, bad (zero/overflowing divisors, wrong types, empty strings, strings of 33-40 multi-byte characters, missing fields), good points next to a bystander task; peer: a task with a UDF node on the real UDFSocket/udf.Server over simulated pipes against an echo agent or one of 10 misbehaving peers (a batch announcing 2^33..2^62 or a negative number of points, garbage, wrong response types, oversized length prefix, half a frame then close, empty message, end without begin, close after info/init, silence, a duration field reaching the UDF); " +
+		Rule: "case = one of five modes. json: the pipeline of a corpus script serialised to JSON, one seeded textual mutation (node type changed or unknown, value of another JSON kind, truncation, dropped key, node ids, edges), offered to Pipeline.Unmarshal; vars: a task definition with one of 30 well- and ill-formed vars documents POSTed to the real task_store handler, then the same script as a template (created, read back with its vars rendered, instantiated with the document, updated); define: a corpus script (6 scripts covering most node kinds) with 1-3 seeded byte-level mutations (truncate, delete, duplicate, rotate, multi-byte rune, comment or comment continuation lines after '/', stray tokens, property without parentheses, random byte, dropped parentheses, 4-7 extra arguments) offered to ast.Parse, tick.Format, TaskMaster.NewTask and NewTemplate inside a world; runtime: (a third of these cases) one of 75 node chains whose count/size/duration/percentile properties are filled with boundary values (0, -1, 1, +-2^63, 0s, -1s, 1ns, the longest duration, 0.0, 100.5, 1.8e308) and which, if the node API accepts them, must process eight points without a node failing; or a running task with one of 21 lambdas (three with two dynamic operands, fed a point in which both change type) in where/alert/stateCount/stateDuration/from/eval/derivative fed good, bad (zero/overflowing divisors, wrong types, empty strings, strings of 33-40 multi-byte characters, missing fields), good points next to a bystander task; peer: a task with a UDF node on the real UDFSocket/udf.Server over simulated pipes against an echo agent or one of 10 misbehaving peers (a batch announcing 2^33..2^62 or a negative number of points, garbage, wrong response types, oversized length prefix, half a frame then close, empty message, end without begin, close after info/init, silence, a duration field reaching the UDF); " +
 			"non-trivial = the task was defined (runtime/peer) or any define case; distinct = distinct (scenario, interleaving signature) pairs",
 		Real:        []string{"tick/ast lexer goroutine + parser, tick.Format, tick evaluator, pipeline.CreatePipeline/CreateTemplatePipeline, TaskMaster.NewTask/NewTemplate", "node.start recover path, WhereNode, AlertNode, StateTracking nodes, FromNode, EvalNode, DerivativeNode, tick/stateful evaluator and functions", "UDFNode, UDFSocket, udf.Server, udf/agent framing", "TaskMaster ingest/fork, httpd write endpoint"},
 		Stub:        []string{"UDFService on the existing seam: real UDFSocket over SimPipes, in-process echo agent or scripted hostile peer", "recording sinks"},
